@@ -284,7 +284,8 @@ class ProxyClient:
             try:
                 cbfunc(*args)
             except UnregisterCallback:
-                cblist.remove(cbfunc)
+                if cbfunc in cblist:  # it might have unregistered itself already
+                    cblist.remove(cbfunc)
             except Exception as e:
                 if cbname != 'handleError':
                     try:
